@@ -416,7 +416,7 @@ def generic_check(prop, tier, seed, parts, trusted, assume, rule, replay=None, m
             args = [part.what, str(seed), '0', str(resf)] + part.extra_args + [str(tmpc)]
         elif Path(corpus).exists():
             args.append(str(corpus))
-        rc, so, se = run_impl(part.module, args, timeout=900 if tier == 'quick' else 5400)
+        rc, so, se = run_impl(part.module, args, timeout=420 if tier == 'quick' else 5400)
         results = []
         if rc == 0 and resf.exists():
             results = json.loads(resf.read_text())
